@@ -430,6 +430,9 @@ fn decode_and_judge<D: WireTy>(
         if biggest >= 8usize << 30 {
             ctx.stats.inc("probe.decode_alloc_ge_8GiB");
         }
+        if biggest >= 16usize << 30 {
+            ctx.stats.inc("probe.decode_alloc_ge_16GiB");
+        }
     }
     ctx.stats.inc("time.decodes");
     ctx.stats.add("time.bytes_decoded", consumed as u64);
